@@ -274,7 +274,20 @@ def r55(e: Engine, rep: Report):
     # literals kept as class-level constants count like literals in the
     # code that uses them
     # (class level or module level of the sender's module)
-    for st in list(c.node.body) + list(c.module.tree.body):
+    folded = []
+    for st in list(c.module.tree.body):
+        # (module constants built from earlier ones: _LF_DOT = b'\n' + _DOT)
+        if isinstance(st, ast.Assign) and len(st.targets) == 1 and \
+                isinstance(st.targets[0], ast.Name) and \
+                not isinstance(st.value, ast.Constant):
+            mv = common.module_const(c.module, st.targets[0].id)
+            if isinstance(mv, bytes) and _is_trigger(mv):
+                cst = ast.Constant(value=mv)
+                asg = ast.Assign(targets=st.targets, value=cst)
+                ast.copy_location(asg, st)
+                ast.copy_location(cst, st)
+                folded.append(asg)
+    for st in list(c.node.body) + list(c.module.tree.body) + folded:
         if isinstance(st, ast.Assign) and \
                 isinstance(st.value, ast.Constant) and \
                 isinstance(st.value.value, bytes) and \
